@@ -18,6 +18,8 @@ RULE = (
     ' Parts faults / retry: db.next() fails once on the first to third job '
     'of a batch; units the farm holds for its retry are judged when the sch'
     'eduler released them. '
+    ' Part cluster: replies produced by real workers (worker.cluster.execut'
+    'e on a real store). '
 )
 ASSUMPTIONS = [
     'workers answer only tasks they were handed, at most once',
